@@ -19,7 +19,7 @@ TABLE = {
     ),
     "C03": dict(
         technique="syntactic type inference of return expressions + guard dominance on the CFG",
-        text="Decides that every successful return of the built-in scalars' coerce_output is syntactically of the wire type and dominated by the Int range / Float finiteness guards, enum output fails closed on a miss, both list coercers reject non-lists before iterating, ensure_valid_runtime_type returns only after the object-type and possible-type checks, and Engine.execute / parse_and_validate_query are wrapped in catch-alls whose every exit returns an errors-only response. Not decided: custom scalars and hooks, JSON-serialisability beyond built-ins, exact key sets (C01.R6 is the structural part).",
+        text="Decides that every successful return of the built-in scalars' coerce_output is syntactically of the wire type and dominated by the Int range / Float finiteness guards, enum output fails closed on a miss, both list coercers reject non-lists before iterating, ensure_valid_runtime_type returns only after the object-type and possible-type checks, and Engine.execute / parse_and_validate_query are wrapped in catch-alls whose every exit returns an errors-only response. Not decided: custom scalars and hooks, JSON-serialisability beyond built-ins, exact key sets beyond the structural part decided by R7.",
         note="Type inference is syntactic (constructor calls, literals, isinstance-guarded names); no type checker is available in this sandbox.",
     ),
     "C10": dict(
@@ -100,6 +100,28 @@ TABLE = {
         note="-",
     ),
 }
+
+# additions of round 2: obligations shared between properties and the state-hygiene rule RS
+RS_TEXT = (" Also decided (rule RS): no census instance of process- or engine-shared state (memoised function, module- or class-level container written after import, "
+           "mutable default, write to an object the request did not create) involves a function this property is anchored in or one it calls directly.")
+ADD = {
+    "C01": " The possible-type sets that answer type conditions are filled from the final member lists (C03.R5).",
+    "C03": " Exactly the selected keys: field collection keeps every node of every selected key once and the result mapping is built from the collected keys (C01.R1-R6, run here as R7).",
+    "C04": " The leaves: Int/Float/String/Boolean/ID coerce_input guards (bool rejection, integrality, range, finiteness) as in C10.R2 (run here as R8).",
+    "C05": " Both built-in arguments coercers return exactly one entry per coroutine, in order, on every path including the failing one (the zip in coerce_arguments is positional).",
+    "C06": " Possible-type sets read by 5.5.2.3 hold every member, extension-added ones included.",
+    "C07": " The document-level collectors (variables, fragments reached through nested spreads) thread their accumulator (C06.R5) and possible-type sets are complete.",
+    "C08": " Sequential and concurrent paths agree on failures because every failure leaving a field is the located MultipleException, the one kind recognised among gathered values (C02.R1/R2 + extraction rule).",
+    "C09": " The mapping the serial loop iterates is filled in first-appearance order by accumulate-form stores only (C01.R1-R5, run here as R4).",
+    "C10": " The list / non-null / null input wrappers hand on what the scalar returned, not the raw value (C04.R5).",
+    "C11": " `extend schema` reaches the schema unconditionally and schema directives accumulate across `schema` / `extend schema`; every concatenation of SDL pieces puts a line break between them.",
+    "C12": " `extend schema` stores the root names it introduces whether or not the type exists, so that the root-type clause can reject them.",
+    "C13": " Bake cascade: every container bakes every one of its members (arguments, fields, input fields, enum values, all types and directives), post-bake chains are awaited once per member; generator wrappers pass every payload on; hook failures yield one error per exception.",
+    "C14": " The source is the first collected root field of the subscription root type; unknown field / missing generator are errors, not calls; Subscription.bake attaches generators to subscription-root fields only.",
+    "C18": " Error records: coerce_value returns the record it built, `extensions` iff the error carries some, locations from the attached ones else the error's own, `path` is the list handed over by handle_field_error; several anonymous operations are refused before operations are indexed by name.",
+}
+for _k, _v in TABLE.items():
+    _v["text"] = _v["text"] + ADD.get(_k, "") + (RS_TEXT if _k not in ("C15", "C16", "C17") else "")
 
 NOT_BUILT_REASON = "checker not built yet (build round in progress); see DESIGN.md section 2 for the planned static rules"
 
